@@ -7,13 +7,18 @@ import Dashu.Proofs.NT.Root
 import Dashu.Proofs.NT.Log
 import Dashu.Proofs.NT.Log2Table
 import Dashu.Proofs.NT.Log2Lift
+import Dashu.Proofs.NT.Zimmermann
+import Dashu.Proofs.NT.PrimRoot
+import Dashu.Proofs.NT.PrimRootU16
+import Dashu.Proofs.NT.PrimRootU128
+import Dashu.Proofs.NT.LehmerBuf
 /-
   C12 — gcd, integer roots, integer logarithms and `remove` satisfy their defining (in)equalities;
   the only panics are the documented ones.
 
   Property theorems only.  Statements quantify over all word sizes (`0 < W`, and `W` even where the
   square-root normalisation needs it), all operands and all `n ≥ 1`; nothing is bounded.
-  Frontier kernels enter through their contracts (`LehmerExtContract`, `SqrtKernelContract`); the kernels the driver executes are shown to meet them where they are Lean definitions.
+  Kernels enter through their contracts (`LehmerExtContract`, `SqrtKernelContract`, `PrimSqrtContract`); the kernels the driver executes (Lehmer loops, Zimmermann's `sqrt_rem` / `sqrt_rem_42`, the primitive table/Newton roots) are Lean definitions shown to meet them — see the Round-4 sections at the end.
 -/
 namespace Dashu.Props.C12
 open Dashu.Model Dashu.Model.NT
@@ -341,6 +346,221 @@ theorem ilog_zero_asIs_counterexample :
 theorem gcd_ext_post_precondition_counterexample :
     gcdExtPostPre 64 (2 ^ 320) (2 ^ 128) (lehmerExtFrontier (2 ^ 320) (2 ^ 128)) = false ∧
     gcdExtPost (2 ^ 320) (2 ^ 128) (lehmerExtFrontier (2 ^ 320) (2 ^ 128)) = (2 ^ 128, 0, 1) := by
+  decide +kernel
+
+-- ==================================================================== Zimmermann's Karatsuba square root (Round 4)
+
+/-- the arithmetic core of `root::sqrt_rem` (Zimmermann 1999): with `hi = s1² + R1`, `R1 ≤ 2·s1`, a
+    normalised `s1` (`B ≤ 2·s1`) and `R1·B + b1 = 2·q·s1 + U`, `U < 2·s1`, the candidate `s = s1·B + q` has the
+    exact signed remainder `r = U·B + b0 − q²`; `q ≤ B`; `r ≤ 2s`; a negative `r` is repaired by ONE
+    decrement (`r + 2s − 1 ≥ 0`); and `q = B` always needs it -/
+theorem zimmermann_step {s1 R1 B b1 b0 q U hi : Nat}
+    (hhi : hi = s1 * s1 + R1) (hR1 : R1 ≤ 2 * s1) (hB : B ≤ 2 * s1) (hb1 : b1 < B) (hb0 : b0 < B)
+    (hdiv : R1 * B + b1 = 2 * q * s1 + U) (hU : U < 2 * s1) :
+    ((hi * (B * B) + b1 * B + b0 : Nat) : Int) = ((s1 * B + q) * (s1 * B + q) : Nat) + ((U * B + b0 : Nat) - (q * q : Nat) : Int) ∧
+    q ≤ B ∧
+    ((U * B + b0 : Nat) : Int) - (q * q : Nat) ≤ 2 * ((s1 * B + q : Nat) : Int) ∧
+    (((U * B + b0 : Nat) : Int) - (q * q : Nat) < 0 →
+        0 ≤ ((U * B + b0 : Nat) : Int) - (q * q : Nat) + 2 * ((s1 * B + q : Nat) : Int) - 1 ∧ 1 ≤ q) ∧
+    (q = B → ((U * B + b0 : Nat) : Int) - (q * q : Nat) < 0) :=
+  karatsuba_step hhi hR1 hB hb1 hb0 hdiv hU
+
+/-- **`root::sqrt_rem_42` is correct**: on every normalised 4-word value (`2^(4W−2) ≤ a < 2^(4W)`, any
+    word size `W ≥ 2`) the mirrored routine — word-assembled `r0 = (r1·B + b1)/2`, division by `s1`,
+    the `q ≥ B` reduction, `u << 1 | (a[1] & 1)`, `overflowing_sub(q²)`, the `c < 0` repair with its two
+    `overflowing_add`s — returns `(s, r_lo, carry)` with `s² + r = a`, `r ≤ 2s`, `r = r_lo + carry·2^(2W)` -/
+theorem sqrt_rem_42_correct {W : Nat} (hW : 2 ≤ W) {prim : Nat → Nat × Nat} (hprim : PrimSqrtContract W prim)
+    {a : Nat} (hlo : 2 ^ (W - 1) * 2 ^ (W - 1) * (2 ^ W * 2 ^ W) ≤ a) (hhi : a < 2 ^ W * 2 ^ W * (2 ^ W * 2 ^ W)) :
+    KOut (2 ^ W * 2 ^ W) a (sqrtRem42 W prim a) :=
+  sqrtRem42_spec hW hprim hlo hhi
+
+/-- **`root::sqrt_rem` (Zimmermann's Karatsuba square root) is correct** for every output length `n ≥ 2`
+    and every normalised `2n`-word value: the mirrored recursion (recursive call on the high `2(n − n/2)`
+    words, `r1_top` ⇒ `sub_in_place`, `div_rem_in_place` by `s1`, the shifted-in quotient bit
+    `r1_top ^ carry`, `q_top`, the parity repair `add_in_place`, `q²` with `q_top` placed or charged to `c`,
+    `sub_in_place`, the `c < 0` repair with `add_word_in_place` / `add_mul_word_in_place` /
+    `sub_one_in_place`) returns `(s, r_lo, carry)` with `s² + r = a`, `r ≤ 2s`, `r_lo < 2^(W·n)`.
+    No fuel or size bound: the recursion depth argument is `n` itself. -/
+theorem sqrt_rem_karatsuba_correct {W : Nat} (hW : 2 ≤ W) {prim : Nat → Nat × Nat} (hprim : PrimSqrtContract W prim)
+    (n a : Nat) (hn : 2 ≤ n) (hlo : 2 ^ (W * n - 1) * 2 ^ (W * n - 1) ≤ a) (hhi : a < 2 ^ (W * n) * 2 ^ (W * n)) :
+    KOut (2 ^ (W * n)) a (sqrtRemRec W prim n n a) :=
+  sqrtRemRec_spec hW hprim n n a hn (Nat.le_refl n) hlo hhi
+
+/-- … so on the value `sqrt_rem_large` hands over, the mirrored kernel is the floor square root with its
+    remainder (it equals the specification it replaced) -/
+theorem sqrt_rem_kernel_eq_spec {W : Nat} (hW : 2 ≤ W) (hWe : W % 2 = 0) {prim : Nat → Nat × Nat}
+    (hprim : PrimSqrtContract W prim) (fixed : Bool) {x : Nat} (hx : 2 ^ (2 * W) ≤ x) :
+    sqrtRemLarge W (sqrtRemKernel W prim) fixed x = sqrtRemLarge W sqrtRemKernelFrontier fixed x :=
+  sqrtRemLarge_mirrored hW hWe hprim fixed hx
+
+/-- **`sqrt_rem` with every kernel mirrored** (what the driver runs): floor square root and
+    `value − root²` for every `x`, given that the one- and two-word primitive roots are exact -/
+theorem sqrt_rem_mirrored_spec {W : Nat} (hW : 2 ≤ W) (hWe : W % 2 = 0) {primW primD : Nat → Nat × Nat}
+    (hpW : PrimSqrtExact (2 ^ W) primW) (hpD : PrimSqrtExact (2 ^ (2 * W)) primD) (x : Nat) :
+    IsRoot x 2 (sqrtRemReprM W primW primD true x).1 ∧
+    (sqrtRemReprM W primW primD true x).1 * (sqrtRemReprM W primW primD true x).1
+      + (sqrtRemReprM W primW primD true x).2 = x := by
+  rw [sqrtRemReprM_eq hW hWe hpW hpD]
+  exact sqrt_rem_spec W (by omega) hWe x
+
+/-- … and `nth_root` / `sqrt` through it: every clause of `nth_root_spec` holds for the mirrored dispatch -/
+theorem nth_root_mirrored_eq {W : Nat} (hW : 2 ≤ W) (hWe : W % 2 = 0) {primW primD : Nat → Nat × Nat}
+    (hpW : PrimSqrtExact (2 ^ W) primW) (hpD : PrimSqrtExact (2 ^ (2 * W)) primD) (fixed : Bool) (x n : Nat) :
+    nthRootReprM W primW primD fixed x n = nthRootRepr W fixed x n :=
+  nthRootReprM_eq hW hWe hpW hpD fixed x n
+
+/-- the hypotheses are satisfiable: the specification-level primitives are exact … -/
+example : PrimSqrtExact (2 ^ 64) sqrtRemPrimFrontier ∧ PrimSqrtExact (2 ^ (2 * 64)) sqrtRemPrimFrontier :=
+  ⟨fun _ _ => rfl, fun _ _ => rfl⟩
+
+/-- … and concrete runs of what the driver executes (mirrored `u64`/`u128` primitives, `sqrt_rem_42`, the
+    recursion at `n = 3, 5` with and without the normalisation shift), evaluated by the kernel -/
+example : sqrtRemReprM 64 (sqrtRemWordM 64) (sqrtRemDwordM 64) true (2 ^ 255 + 12345)
+    = sqrtRemRepr 64 true (2 ^ 255 + 12345) := by decide +kernel
+example : sqrtRemReprM 64 (sqrtRemWordM 64) (sqrtRemDwordM 64) true (3 ^ 230 + 7)
+    = sqrtRemRepr 64 true (3 ^ 230 + 7) := by decide +kernel
+example : sqrtRemReprM 64 (sqrtRemWordM 64) (sqrtRemDwordM 64) true (2 ^ 640 - 1)
+    = sqrtRemRepr 64 true (2 ^ 640 - 1) := by decide +kernel
+example : KOut (2 ^ (64 * 3)) (2 ^ 384 - 1) (sqrtRemRec 64 sqrtRemPrimFrontier 3 3 (2 ^ 384 - 1)) :=
+  sqrt_rem_karatsuba_correct (by decide) (PrimSqrtExact.contract (W := 64) (fun _ _ => rfl)) 3 _ (by decide)
+    (by decide +kernel) (by decide +kernel)
+
+-- ==================================================================== primitive roots of dashu-base (Round 4)
+
+/-- **`fix_sqrt_error!` is sound** (every width, every start value): whatever it returns without an
+    arithmetic overflow is the floor square root and `n − root²` -/
+theorem fix_sqrt_error_sound {bits n s : Nat} {r : Nat × Nat} (h : fixSqrtError bits n s = some r) :
+    IsRoot n 2 r.1 ∧ r.1 * r.1 + r.2 = n :=
+  fixSqrtError_sound h
+
+/-- **`fix_cbrt_error!` is sound** -/
+theorem fix_cbrt_error_sound {bits n c : Nat} {r : Nat × Nat} (h : fixCbrtError bits n c = some r) :
+    IsRoot n 3 r.1 ∧ r.1 ^ 3 + r.2 = n :=
+  fixCbrtError_sound h
+
+/-- **`sqrt_rem` of `u8`, `u16`, `u32`, `u64`, `u128` is sound** on every value of the type: table lookup,
+    Newton steps, the `u128` Karatsuba step over the `u64` routine (bit-packed with KBITS = 32) and the
+    normalising wrapper can only produce the floor root and its remainder (or overflow) -/
+theorem prim_sqrt_rem_sound {bits x : Nat} (hb : bits = 8 ∨ bits = 16 ∨ bits = 32 ∨ bits = 64 ∨ bits = 128)
+    (hx : x < 2 ^ bits) {r : Nat × Nat} (h : sqrtRemPrimBits bits x = some r) :
+    IsRoot x 2 r.1 ∧ r.1 ^ 2 + r.2 = x := by
+  rcases hb with rfl | rfl | rfl | rfl | rfl
+  · have := fixSqrtError_sound (show fixSqrtError 8 x 0 = some r from h)
+    rw [Nat.pow_two]; exact this
+  · exact sqrtRemNorm_sound normSqrtU16_sound hx h
+  · exact sqrtRemNorm_sound normSqrtU32_sound hx h
+  · exact sqrtRemNorm_sound normSqrtU64_sound hx h
+  · exact sqrtRemU128_sound hx h
+
+/-- a sound primitive that answers on every value of its type is exact -/
+theorem prim_exact_of_total {bits : Nat} (hb : bits = 8 ∨ bits = 16 ∨ bits = 32 ∨ bits = 64 ∨ bits = 128)
+    (htot : ∀ y, y < 2 ^ bits → (sqrtRemPrimBits bits y).isSome) :
+    PrimSqrtExact (2 ^ bits) (fun y => (sqrtRemPrimBits bits y).getD (0, 0)) := by
+  intro y hy
+  have ht := htot y hy
+  obtain ⟨r, hr⟩ := Option.isSome_iff_exists.1 ht
+  obtain ⟨hroot, hrem⟩ := prim_sqrt_rem_sound hb hy hr
+  simp only [hr, Option.getD_some]
+  have hu := IsRoot.unique (by decide) hroot (iroot_spec y 2 (by decide))
+  unfold sqrtRemPrimFrontier
+  simp only []
+  rw [← hu]
+  have : r.1 * r.1 + r.2 = y := by rw [← Nat.pow_two]; exact hrem
+  ext
+  · rfl
+  · simp only []; omega
+
+/-- **`sqrt_rem` exactly as the driver runs it for the 64-bit word** (mirrored `u64` / `u128` primitives,
+    `sqrt_rem_42`, the Karatsuba recursion, `sqrt_rem_large`): the floor square root and `value − root²`
+    for EVERY `x`.  The only hypothesis left is that the `u64` and `u128` primitive routines never
+    overflow (`isSome`: they are proved sound, `prim_sqrt_rem_sound`; totality is proved up to `u16`). -/
+theorem sqrt_rem_driver_spec
+    (h64 : ∀ y, y < 2 ^ 64 → (sqrtRemPrimBits 64 y).isSome)
+    (h128 : ∀ y, y < 2 ^ 128 → (sqrtRemPrimBits 128 y).isSome) (x : Nat) :
+    IsRoot x 2 (sqrtRemReprM 64 (sqrtRemWordM 64) (sqrtRemDwordM 64) true x).1 ∧
+    (sqrtRemReprM 64 (sqrtRemWordM 64) (sqrtRemDwordM 64) true x).1 * (sqrtRemReprM 64 (sqrtRemWordM 64) (sqrtRemDwordM 64) true x).1
+      + (sqrtRemReprM 64 (sqrtRemWordM 64) (sqrtRemDwordM 64) true x).2 = x :=
+  sqrt_rem_mirrored_spec (W := 64) (by decide) (by decide)
+    (prim_exact_of_total (bits := 64) (by decide) h64)
+    (prim_exact_of_total (bits := 128) (by decide) h128) x
+
+/-- **`cbrt_rem` of `u8`, `u16`, `u32`, `u64` is sound** on every value of the type -/
+theorem prim_cbrt_rem_sound {bits x : Nat} (hb : bits = 8 ∨ bits = 16 ∨ bits = 32 ∨ bits = 64)
+    (hx : x < 2 ^ bits) {r : Nat × Nat} (h : cbrtRemPrimBits bits x = some r) :
+    IsRoot x 3 r.1 ∧ r.1 ^ 3 + r.2 = x := by
+  rcases hb with rfl | rfl | rfl | rfl
+  · exact fixCbrtError_sound (show fixCbrtError 8 x 0 = some r from h)
+  · exact cbrtRemNorm_sound normCbrtU16_sound hx h
+  · exact cbrtRemNorm_sound normCbrtU32_sound hx h
+  · exact cbrtRemNorm_sound normCbrtU64_sound hx h
+
+/-- non-vacuity: the routines do answer (kernel evaluation of the mirrored `u32` / `u64` Newton code) -/
+example : sqrtRemPrimBits 64 (2 ^ 63 + 12345) = some (3037000499, 5928539152) ∧
+    cbrtRemPrimBits 32 4000000000 = some (1587, 3030997) ∧ sqrtRemPrimBits 32 65533 = some (255, 508) := by
+  decide +kernel
+
+/-- `u8`: total and exact on all 256 values (kernel evaluation) -/
+theorem prim_root_u8_total (x : Nat) (hx : x < 256) :
+    (∃ s r, sqrtRemPrimBits 8 x = some (s, r) ∧ IsRoot x 2 s ∧ s * s + r = x) ∧
+    (∃ c r, cbrtRemPrimBits 8 x = some (c, r) ∧ IsRoot x 3 c ∧ c * c * c + r = x) := by
+  have h1 := allFrom_spec (sqrtOkAt 8) 256 0 sqrt_u8_all x (by omega) (by omega)
+  have h2 := allFrom_spec (cbrtOkAt 8) 256 0 cbrt_u8_all x (by omega) (by omega)
+  unfold sqrtOkAt at h1
+  unfold cbrtOkAt at h2
+  constructor
+  · split at h1
+    · rename_i s r heq
+      simp only [Bool.and_eq_true, decide_eq_true_eq] at h1
+      exact ⟨s, r, heq, ⟨by rw [Nat.pow_two]; exact h1.1.1, by rw [Nat.pow_two]; exact h1.1.2⟩, h1.2⟩
+    · exact absurd h1 (by simp)
+  · split at h2
+    · rename_i c r heq
+      simp only [Bool.and_eq_true, decide_eq_true_eq] at h2
+      have e3 : ∀ t : Nat, t ^ 3 = t * t * t := fun t => by ring
+      exact ⟨c, r, heq, ⟨by rw [e3]; exact h2.1.1, by rw [e3]; exact h2.1.2⟩, h2.2⟩
+    · exact absurd h2 (by simp)
+
+/-- `u16`: `sqrt_rem` and `cbrt_rem` (RSQRT_TAB / RCBRT_TAB estimate, `fix_*_error!`, normalising wrapper) are
+    total and exact on all 65 536 values (kernel evaluation, 128 chunk theorems; no overflow anywhere) -/
+theorem prim_root_u16_total (x : Nat) (hx : x < 65536) :
+    (∃ s r, sqrtRemPrimBits 16 x = some (s, r) ∧ IsRoot x 2 s ∧ s * s + r = x) ∧
+    (∃ c r, cbrtRemPrimBits 16 x = some (c, r) ∧ IsRoot x 3 c ∧ c * c * c + r = x) := by
+  have h1 := sqrt_u16_ok x hx
+  have h2 := cbrt_u16_ok x hx
+  unfold sqrtOkAt at h1
+  unfold cbrtOkAt at h2
+  constructor
+  · split at h1
+    · rename_i s r heq
+      simp only [Bool.and_eq_true, decide_eq_true_eq] at h1
+      exact ⟨s, r, heq, ⟨by rw [Nat.pow_two]; exact h1.1.1, by rw [Nat.pow_two]; exact h1.1.2⟩, h1.2⟩
+    · exact absurd h1 (by simp)
+  · split at h2
+    · rename_i c r heq
+      simp only [Bool.and_eq_true, decide_eq_true_eq] at h2
+      have e3 : ∀ t : Nat, t ^ 3 = t * t * t := fun t => by ring
+      exact ⟨c, r, heq, ⟨by rw [e3]; exact h2.1.1, by rw [e3]; exact h2.1.2⟩, h2.2⟩
+    · exact absurd h2 (by simp)
+
+-- ==================================================================== gcd_ext_in_place: coefficient sizes (Round 4)
+
+/-- **buffer-length claim of `lehmer::gcd_ext_in_place`, coefficients `t0`, `t1`** (partial: the final
+    `|b| = |cx|·t0 + |cy|·t1 ≤ lhs/g` after the single-word `gcd_ext` is not covered — it needs the classical
+    cofactor bounds `|cx|·g ≤ y`, `|cy|·g ≤ x mod y` of the primitive Euclid loop).
+    At the exit of the main loop `t1·x + t0·y = lhs` — for WHATEVER quotients the leading-word guess
+    committed (only the determinant 1 of the cofactor matrix is used) — so `t1` and, while a last word
+    `y > 0` is left, `t0` are at most `lhs`: they fit the `lhs_len` words of the buffers (`lhs_len + 1` are
+    reserved), and the carries the code `debug_assert_zero!`s are zero. -/
+theorem gcd_ext_cofactors_fit_partial (W : Nat) (hW : 0 < W) (lhs rhs : Nat) (x y t0 t1 : Nat) (sw : Bool)
+    (h : lehmerExtLoop W (lhs + rhs + 1) lhs rhs 0 1 false = .ok (x, y, t0, t1, sw)) :
+    t1 * x + t0 * y = lhs ∧ (0 < x → t1 < 2 ^ (W * wordLen W lhs)) ∧ (0 < y → t0 < 2 ^ (W * wordLen W lhs)) :=
+  lehmerExt_cofactors_fit W hW lhs rhs x y t0 t1 sw h
+
+/-- the hypothesis is satisfiable: the loop does return on multi-word operands (`lehmer_gcd_ext_correct`);
+    a concrete run, with the invariant evaluated -/
+example : (match lehmerExtLoop 64 ((2 ^ 200 + 12345) + (3 ^ 120 + 7) + 1) (2 ^ 200 + 12345) (3 ^ 120 + 7) 0 1 false with
+    | .ok (x, y, t0, t1, _) => decide (t1 * x + t0 * y = 2 ^ 200 + 12345 ∧ 0 < y ∧ 1 < t0)
+    | .error _ => false) = true := by
   decide +kernel
 
 end Dashu.Props.C12
